@@ -88,6 +88,13 @@ int main() {
             }
             capture([] { masa_init_param<double>(); });
           } }
+        // the same failing lookup many times in a row: every repetition must answer like the first (status, untouched outputs)
+        for (int rep = 0; rep < 12; rep++) {
+          double arr[8]; for (double& x : arr) x = -777; int m = 777; int sa = 0; capture([&] { sa = masa_get_array("no_such_vector", &m, arr); }); std::vector<double> v(1, -777.0); int sv = 0; capture([&] { sv = masa_get_vec<double>("no_such_vector", v); }); n++;
+          if (sa != sv || m != 777 || arr[0] != -777) { printf("BAD masa_get_array(unknown name) on %s, repetition %d: status %d (C++ %d), n=%d, buffer %s\n", sol.c_str(), rep + 1, sa, sv, m, arr[0] == -777 ? "untouched" : "written"); break; }
+          double g1 = 0, g2 = 0; std::string o1g = capture([&] { g1 = masa_get_param("no_such_parameter"); }), o2g = capture([&] { g2 = masa_get_param<double>("no_such_parameter"); }); n++;
+          if (memcmp(&g1, &g2, 8) || o1g != o2g) { printf("BAD masa_get_param(unknown name) on %s, repetition %d: C %.17g, C++ %.17g\n", sol.c_str(), rep + 1, g1, g2); break; }
+        }
         int a1, a2; std::string q1 = capture([&] { a1 = masa_sanity_check(); }), q2 = capture([&] { a2 = masa_sanity_check<double>(); }); n++; if (a1 != a2 || q1 != q2) printf("BAD masa_sanity_check on %s: C %d C++ %d\n", sol.c_str(), a1, a2);
         a1 = masa_purge_default_param(); capture([&] { a2 = masa_sanity_check(); }); int a3; capture([&] { a3 = masa_sanity_check<double>(); }); n++; if (a2 != a3 || (a3 == 0 && !pn.empty())) printf("BAD purge/sanity through C on %s: C sanity %d, C++ sanity %d\n", sol.c_str(), a2, a3);
         a1 = masa_init_param(); capture([&] { a2 = masa_sanity_check<double>(); }); n++; if (a1 != 0 || a2 != 0) printf("BAD masa_init_param through C on %s: status %d, sanity afterwards %d\n", sol.c_str(), a1, a2);
